@@ -19,8 +19,27 @@
  *                                     AES-CTR stream               -> R <lib> <ref>
  *  Z                                  -> R Z <counter>=<n> ... disabled=<list|->
  * <ref> is common/refaes.c; the comparison is made by vlib/c03.py.
+ *
+ * "Self-test fails" variants: `c03 --fail-selftest=<impl>[,<impl>...]` with
+ * <impl> in {shani, sse2, sse42, aesni}.  The CPU reports the feature and the
+ * library is linked unchanged, but the library's own start-up self-test of
+ * that implementation fails: the FIRST call of the wrapped entry point in the
+ * process, if (and only if) it carries the library's self-test vector, returns
+ * a wrong result (SHA256_Transform_shani / _sse2: one bit of the returned
+ * state is flipped; CRC32C_Update_SSE42: one bit of the returned value is
+ * flipped; crypto_aes_key_expand_aesni: returns NULL as after a failed
+ * allocation).  Every later call behaves normally.  inj_<impl> counts the
+ * injected failures, after_<impl> counts the calls of any entry point of that
+ * implementation made AFTER its self-test failed (the library must not make
+ * any: it has to fall back, for every operation, to what it selects instead).
+ * If the process dies by abort() (sanitizer report, assert) after such a call,
+ * a line "C03-USED-AFTER-DISABLE <impl>:<entry point>... disabled=<list>" is
+ * the last thing written to stderr.
  */
 #include "vh.h"
+
+#include <signal.h>
+#include <unistd.h>
 
 #include <openssl/aes.h>
 
@@ -40,6 +59,71 @@ static unsigned int sse42_aligns;	/* bit k: a call with (buf & 7) == k */
 static uint64_t sse42_short;		/* calls with len < 8 (must not happen) */
 static char disabled[256];
 
+/* ---- injected self-test failures (--fail-selftest=...) ---- */
+enum { I_SHANI = 0, I_SSE2, I_SSE42, I_AESNI, I_N };
+static const char * const impl_name[I_N] = { "shani", "sse2", "sse42", "aesni" };
+static int fail_req[I_N];		/* requested on the command line */
+static uint64_t n_inj[I_N];		/* self-test failures injected */
+static uint64_t n_after[I_N];		/* calls after the injected failure */
+static const char * first_after[I_N];	/* entry point of the first such call */
+static char abort_marker[512];
+static volatile sig_atomic_t abort_marker_len;
+
+static void
+on_abort(int sig)
+{
+	ssize_t r;
+
+	(void)sig;
+	if (abort_marker_len > 0) {
+		r = write(2, abort_marker, (size_t)abort_marker_len);
+		(void)r;
+	}
+	/* abort() restores the default action and raises SIGABRT again. */
+}
+
+/* An entry point of implementation i ran although its self-test had failed. */
+static void used_after_disable(int, const char *) __attribute__((unused));
+static void
+used_after_disable(int i, const char * fn)
+{
+	int k, n;
+
+	if (n_after[i]++ != 0)
+		return;
+	first_after[i] = fn;
+	abort_marker_len = 0;
+	n = snprintf(abort_marker, sizeof(abort_marker),
+	    "\nC03-USED-AFTER-DISABLE");
+	for (k = 0; k < I_N; k++)
+		if (n_after[k])
+			n += snprintf(abort_marker + n,
+			    sizeof(abort_marker) - (size_t)n, " %s:%s",
+			    impl_name[k], first_after[k]);
+	n += snprintf(abort_marker + n, sizeof(abort_marker) - (size_t)n,
+	    " disabled=%s\n", disabled[0] ? disabled : "-");
+	abort_marker_len = n;
+}
+
+#if (defined(CPUSUPPORT_X86_SHANI) && defined(CPUSUPPORT_X86_SSSE3)) || \
+    defined(CPUSUPPORT_X86_SSE2)
+/* alg/sha256.c:hwaccel_init: initial state, block 0x00 0x01 ... 0x3f. */
+static int
+is_sha_selftest(const uint32_t * state, const uint8_t * block)
+{
+	static const uint32_t iv[8] = {
+		0x6A09E667, 0xBB67AE85, 0x3C6EF372, 0xA54FF53A,
+		0x510E527F, 0x9B05688C, 0x1F83D9AB, 0x5BE0CD19
+	};
+	int i;
+
+	for (i = 0; i < 64; i++)
+		if (block[i] != i)
+			return (0);
+	return (memcmp(state, iv, sizeof(iv)) == 0);
+}
+#endif
+
 #if defined(CPUSUPPORT_X86_SHANI) && defined(CPUSUPPORT_X86_SSSE3)
 void __real_SHA256_Transform_shani(uint32_t *, const uint8_t *);
 void __wrap_SHA256_Transform_shani(uint32_t *, const uint8_t *);
@@ -48,6 +132,16 @@ __wrap_SHA256_Transform_shani(uint32_t * state, const uint8_t * block)
 {
 
 	n_shani++;
+	if (fail_req[I_SHANI]) {
+		if (n_shani == 1 && is_sha_selftest(state, block)) {
+			__real_SHA256_Transform_shani(state, block);
+			state[0] ^= 0x00010000;
+			n_inj[I_SHANI]++;
+			return;
+		}
+		if (n_inj[I_SHANI])
+			used_after_disable(I_SHANI, "SHA256_Transform_shani");
+	}
 	__real_SHA256_Transform_shani(state, block);
 }
 #endif
@@ -63,6 +157,16 @@ __wrap_SHA256_Transform_sse2(uint32_t * state, const uint8_t * block,
 {
 
 	n_sse2++;
+	if (fail_req[I_SSE2]) {
+		if (n_sse2 == 1 && is_sha_selftest(state, block)) {
+			__real_SHA256_Transform_sse2(state, block, W, S);
+			state[7] ^= 0x00000001;
+			n_inj[I_SSE2]++;
+			return;
+		}
+		if (n_inj[I_SSE2])
+			used_after_disable(I_SSE2, "SHA256_Transform_sse2");
+	}
 	__real_SHA256_Transform_sse2(state, block, W, S);
 }
 #endif
@@ -78,6 +182,17 @@ __wrap_CRC32C_Update_SSE42(uint32_t state, const uint8_t * buf, size_t len)
 	sse42_aligns |= 1u << ((uintptr_t)buf & 7);
 	if (len < 8)
 		sse42_short++;
+	if (fail_req[I_SSE42]) {
+		/* alg/crc32c.c:hwtest: "hello world" from the initial state. */
+		if (n_sse42 == 1 && state == 0x82f63b78 && len == 11 &&
+		    memcmp(buf, "hello world", 11) == 0) {
+			n_inj[I_SSE42]++;
+			return (__real_CRC32C_Update_SSE42(state, buf, len) ^
+			    0x00000100);
+		}
+		if (n_inj[I_SSE42])
+			used_after_disable(I_SSE42, "CRC32C_Update_SSE42");
+	}
 	return (__real_CRC32C_Update_SSE42(state, buf, len));
 }
 #endif
@@ -90,6 +205,20 @@ __wrap_crypto_aes_key_expand_aesni(const uint8_t * key, size_t len)
 {
 
 	n_aesni_kx++;
+	if (fail_req[I_AESNI]) {
+		/* crypto/crypto_aes.c:functest: FIPS-197 C.1, key 00 01 .. 0f. */
+		static const uint8_t k0[16] = { 0, 1, 2, 3, 4, 5, 6, 7, 8, 9,
+			10, 11, 12, 13, 14, 15 };
+
+		if (n_aesni_kx == 1 && n_aesni_blk == 0 && n_aesni_ctr == 0 &&
+		    len == 16 && memcmp(key, k0, 16) == 0) {
+			n_inj[I_AESNI]++;
+			return (NULL);
+		}
+		if (n_inj[I_AESNI])
+			used_after_disable(I_AESNI,
+			    "crypto_aes_key_expand_aesni");
+	}
 	return (__real_crypto_aes_key_expand_aesni(key, len));
 }
 
@@ -103,6 +232,8 @@ __wrap_crypto_aes_encrypt_block_aesni(const uint8_t * in, uint8_t * out,
 {
 
 	n_aesni_blk++;
+	if (fail_req[I_AESNI] && n_inj[I_AESNI])
+		used_after_disable(I_AESNI, "crypto_aes_encrypt_block_aesni");
 	__real_crypto_aes_encrypt_block_aesni(in, out, key);
 }
 
@@ -116,6 +247,8 @@ __wrap_crypto_aesctr_aesni_stream(struct crypto_aesctr * stream,
 {
 
 	n_aesni_ctr++;
+	if (fail_req[I_AESNI] && n_inj[I_AESNI])
+		used_after_disable(I_AESNI, "crypto_aesctr_aesni_stream");
 	__real_crypto_aesctr_aesni_stream(stream, in, out, len);
 }
 #endif
@@ -242,13 +375,71 @@ answer2(const uint8_t * a, const uint8_t * b, size_t n)
 	printf("\n");
 }
 
+/* --fail-selftest=<impl>[,<impl>...] */
+static void
+parse_fail(const char * list)
+{
+	static const int compiled[I_N] = {
+#if defined(CPUSUPPORT_X86_SHANI) && defined(CPUSUPPORT_X86_SSSE3)
+		1,
+#else
+		0,
+#endif
+#if defined(CPUSUPPORT_X86_SSE2)
+		1,
+#else
+		0,
+#endif
+#if defined(CPUSUPPORT_X86_SSE42)
+		1,
+#else
+		0,
+#endif
+#if defined(CPUSUPPORT_X86_AESNI)
+		1
+#else
+		0
+#endif
+	};
+	const char * p = list;
+
+	while (*p) {
+		size_t n = strcspn(p, ",");
+		int k, hit = 0;
+
+		for (k = 0; k < I_N; k++) {
+			if (strlen(impl_name[k]) == n &&
+			    strncmp(p, impl_name[k], n) == 0) {
+				if (!compiled[k])
+					vh_die("--fail-selftest: %s is not "
+					    "compiled into this variant",
+					    impl_name[k]);
+				fail_req[k] = 1;
+				hit = 1;
+			}
+		}
+		if (!hit)
+			vh_die("--fail-selftest: bad list '%s'", list);
+		p += n;
+		if (*p == ',')
+			p++;
+	}
+}
+
 int
-main(void)
+main(int argc, char ** argv)
 {
 	struct vh_line L = {0};
-	int rc, intr;
+	int rc, intr, ai;
 
 	vh_stdout_linebuf();
+	for (ai = 1; ai < argc; ai++) {
+		if (strncmp(argv[ai], "--fail-selftest=", 16) == 0) {
+			parse_fail(argv[ai] + 16);
+			signal(SIGABRT, on_abort);
+		} else
+			vh_die("bad argument '%s'", argv[ai]);
+	}
 	if ((rc = refaes_selftest()) != 0)
 		vh_die("refaes self-test failed at step %d", rc);
 	/* Runs the AES self-test now, so that its calls are counted once. */
@@ -266,10 +457,17 @@ main(void)
 			    " aesni_ctr=%" PRIu64 " ossl_key=%" PRIu64
 			    " ossl_enc=%" PRIu64 " stub_detect=%d sse42_aligns=%u"
 			    " sse42_short=%" PRIu64 " warnings=%" PRIu64
+			    " inj_shani=%" PRIu64 " inj_sse2=%" PRIu64
+			    " inj_sse42=%" PRIu64 " inj_aesni=%" PRIu64
+			    " after_shani=%" PRIu64 " after_sse2=%" PRIu64
+			    " after_sse42=%" PRIu64 " after_aesni=%" PRIu64
 			    " intr=%d disabled=%s\n",
 			    n_shani, n_sse2, n_sse42, n_aesni_kx, n_aesni_blk,
 			    n_aesni_ctr, n_ossl_key, n_ossl_enc, c03_stub_calls,
-			    sse42_aligns, sse42_short, n_warn, intr,
+			    sse42_aligns, sse42_short, n_warn,
+			    n_inj[I_SHANI], n_inj[I_SSE2], n_inj[I_SSE42],
+			    n_inj[I_AESNI], n_after[I_SHANI], n_after[I_SSE2],
+			    n_after[I_SSE42], n_after[I_AESNI], intr,
 			    disabled[0] ? disabled : "-");
 			continue;
 		}
